@@ -8,6 +8,7 @@ import SqlModel
 import SqlProofs.SplitValue
 import SqlProofs.Resplit
 import SqlProofs.WsRespell.Def
+import SqlProofs.WsRespell.SqueezeDef
 import SqlModel.LexCost
 open Sql
 
@@ -82,6 +83,20 @@ def cmdWsRespell (s : Array Nat) : String :=
   | .ok ts =>
     let d (b : Bool) : String := if b then "1" else "0"
     "ok " ++ d (wsRespellable ts) ++ " " ++ String.join ((wsCertBits (defaultCfg.env (tokensText ts).toArray) false 0 ts).map d)
+
+/-- `wsrespellany <hex text>`: the decidable hypothesis `wsRespellableAny` of the LENGTH-CHANGING lexical step of C11 (SqlProofs/WsRespell/Squeeze*):
+the certificate on the squeezed token list (every run of white-space tokens = one blank).  Answer: `ok <0|1> <one digit per token of the squeezed
+list>`, or `err <PyErr>`.  `wsclass` lists, per rule of the table, whether it is in the run class (`1`) or not (`0`). -/
+def cmdWsRespellAny (s : Array Nat) : String :=
+  match lex defaultCfg s with
+  | .error e => "err " ++ e.name
+  | .ok ts =>
+    let d (b : Bool) : String := if b then "1" else "0"
+    let cs := squeezeToks ts
+    "ok " ++ d (wsRespellableAny ts) ++ " " ++ String.join ((wsCertAnyBits (defaultCfg.env (tokensText cs).toArray) false 0 cs).map d)
+
+def cmdWsClass : String :=
+  "ok " ++ String.join (defaultCfg.rules.map fun r => if classRe r.re then "1" else "0")
 
 /-- `lexwork <hex text>`: the cost model of the whole scan loop (SqlModel/LexCost.lean, bounded by `C16.lex_work_poly`).
 Answer: `ok <lexWork> <text length> <number of tokens>` (three decimal numbers), or `err <PyErr>` if lexing fails. -/
@@ -273,31 +288,36 @@ def cmdLexBound : String :=
 
 -- >>> bookkeeping (heap) command ---------------------------------------------------------------
 /-- `heap <leaf> … # <op> …`: leaf = comma-joined hex code points (`-` = empty); op = `self:Class:start:stop:includeEnd:extend`.
-Answers `ok <result> … | <object> …` with result = id of `grp` or the exception name, object = `id:parent:kids:Class:value`. -/
-def cmdHeap (ws : List String) : String :=
+Answers `ok <result> … | <object> …` with result = id of `grp` or the exception name, object = `id:parent:kids:Class:value`.
+`heapt …` (`withT`): the leaves have type `Name`, an op may also be `t:self:idx:Ttype` (`tlist[idx].ttype = Ttype`, dotted path; result
+`T` or the exception name), and every object is printed with a sixth field, its `ttype` (`-` = none). -/
+def cmdHeap (withT : Bool) (ws : List String) : String :=
   let ws := ws.filter (· ≠ "")
   let leaves := ws.takeWhile (· ≠ "#")
   let ops := (ws.dropWhile (· ≠ "#")).drop 1
   let pv (w : String) : Text := if w == "-" then [] else (w.splitOn ",").map parseHexWord
-  let h0 := BK.mkStatement (leaves.map pv)
-  let pop (w : String) : Option BK.Op :=
+  let h0 := if withT then BK.mkStatementT (leaves.map fun w => ⟨T.Name, pv w⟩) else BK.mkStatement (leaves.map pv)
+  let pop (w : String) : Option (BK.HOp × Bool) :=
     match w.splitOn ":" with
     | [a, c, b, e, i, x] =>
       match Cls.ofName? c with
-      | some cls => some ⟨a.toNat!, cls, b.toNat!, e.toNat!, i == "1", x == "1"⟩
+      | some cls => some (.group ⟨a.toNat!, cls, b.toNat!, e.toNat!, i == "1", x == "1"⟩, false)
       | none => none
+    | ["t", a, b, tt] => if withT then some (.setType a.toNat! b.toNat! (tt.splitOn "."), true) else none
     | _ => none
   match ops.mapM pop with
   | none => "bad-request"
   | some os =>
-    let (h, rs) := BK.runOps (fun h i => BK.strF h 100000 i) h0 os
+    let (h, rs) := BK.runHOps (fun h i => BK.strF h 100000 i) h0 (os.map (·.1))
     let sv (t : Text) : String := if t.isEmpty then "-" else ",".intercalate (t.map hexDigits)
     let so (i : Nat) : String :=
       let o := h.obj i
       let p := match o.parent with | none => "-" | some p => toString p
       let k := match o.kids with | none => "L" | some [] => "E" | some ks => ".".intercalate (ks.map toString)
-      s!"{i}:{p}:{k}:{o.cls.name}:{sv o.value}"
-    "ok " ++ " ".intercalate (rs.map fun r => match r with | .ok g => toString g | .error e => e.name) ++ " | " ++
+      let base := s!"{i}:{p}:{k}:{o.cls.name}:{sv o.value}"
+      if withT then base ++ ":" ++ (if o.ttype.isEmpty then "-" else ".".intercalate o.ttype) else base
+    "ok " ++ " ".intercalate ((rs.zip (os.map (·.2))).map fun (r, isT) =>
+        match r with | .ok g => if isT then "T" else toString g | .error e => e.name) ++ " | " ++
       " ".intercalate ((List.range h.size).map so)
 -- <<< bookkeeping command -------------------------------------------------------------------------
 
@@ -310,12 +330,15 @@ def handle (line : String) : String :=
   | "lexstable2" :: rest => cmdLexStable true (parseText rest)
   | "lexwork" :: rest => cmdLexWork (parseText rest)
   | "wsrespell" :: rest => cmdWsRespell (parseText rest)
+  | "wsrespellany" :: rest => cmdWsRespellAny (parseText rest)
+  | "wsclass" :: _ => cmdWsClass
   | "csl" :: rest => cmdCsl rest
   | "quiet" :: rest => cmdQuiet (parseText rest)
   | "views" :: rest => cmdViews (parseText rest)
   | "parse" :: rest => cmdParse rest
   | "group" :: rest => cmdGroup rest
-  | "heap" :: rest => cmdHeap rest
+  | "heap" :: rest => cmdHeap false rest
+  | "heapt" :: rest => cmdHeap true rest
   | "skelcheck" :: _ => cmdSkelCheck
   | "lexbound" :: _ => cmdLexBound
   | "skeltexts" :: _ => cmdSkelTexts
